@@ -1,4 +1,5 @@
 import BppProofs.Lemmas.Describe
+import BppProofs.Lemmas.DescribeRat
 /-!
 # C01 (description syntax) — `IntervalConstraint::readDescription` / `getDescription`
 (src/Bpp/Numeric/Constraints.h:234-272, repaired: blanks around the bounds are dropped)
@@ -200,5 +201,19 @@ theorem legacy_read_render_witness (d : Interval Rat) :
   unfold Legacy.readDescription
   rw [e1, e2]
   simp [readCore, h]
+
+/-- the `Rat` interpretation (the one the driver runs descriptions in) satisfies the law, for the
+rationals that are doubles -/
+theorem numLaw_rat : NumLaw (α := Rat) (fun q => isDouble q = true) where
+  render_parse := fun x t hx h => (renderRat_parse x hx t h).1
+  render_chars := fun x t hx h => (renderRat_parse x hx t h).2
+
+/-- **read_render** at `Rat`, without hypothesis on the number texts: for every interval with
+proper bounds that are doubles, whatever `getDescription` is modelled to write is read back as the
+same bounds and flags -/
+theorem read_render_rat (c d : Interval Rat) (s : List Char) (hp : c.proper = true)
+    (hdbl : ∀ x, (c.lo = .fin x ∨ c.hi = .fin x) → isDouble x = true) (hs : render? c = some s) :
+    readDescription d s = .done ⟨c.lo, c.hi, c.inclLo, c.inclHi, d.prec⟩ false :=
+  read_render _ numLaw_rat c d s hp hdbl hs
 
 end Bpp.C01
